@@ -569,3 +569,44 @@ def memo_decorators(fnode) -> list:
         if name in ('lru_cache', 'cache', 'cached', 'memoize', 'memoized', 'cached_property'):
             out.append(_norm(d))
     return out
+
+
+
+def default_factory_dicts(chk) -> list:
+    """(label, where, text) for every function-table entry that hands out a collections.defaultdict / Counter: on such a dict
+    a read of a missing key inserts the key instead of raising KeyError."""
+    from .. import functab
+    from ..symexec import SymExec as _SE, freeze as _fz, show as _show
+    F = chk.facts
+    cache = F.__dict__.setdefault('_default_factory_dicts', None)
+    if cache is not None:
+        return cache
+    out = []
+
+    def find(t):
+        if isinstance(t, tuple):
+            if t[:1] == ('call',) and len(t) > 2 and t[2] in (('ref', 'ext', 'collections.defaultdict'), ('ref', 'ext', 'collections.Counter')):
+                return t
+            for x in t:
+                r = find(x)
+                if r is not None:
+                    return r
+        return None
+    for key, ent in sorted(functab.table(F).items()):
+        fi = ent.funcinfo(F)
+        if fi is None:
+            if ent.kind == 'ext' and ent.target in ('collections.defaultdict', 'collections.Counter'):
+                out.append((ent.label, '%s:%d' % (F.modules[functab.FUNCS_MOD].rel, ent.line), ent.target))
+            continue
+        try:
+            paths = _SE(F, fi).run()
+        except AnalysisError:
+            continue
+        for p in paths:
+            if p.normal:
+                hit = find(_fz(p.outcome[1]))
+                if hit is not None:
+                    out.append((ent.label, fi.where, _show(hit)))
+                    break
+    F.__dict__['_default_factory_dicts'] = out
+    return out
